@@ -157,21 +157,32 @@ def run_lazy(tape, base):
             progs.remove(p)
     try:
         np.random.seed(seed % (1 << 32))
-        with patched_random(SeededRNG(seed)):  # (a) consecutive scenes, scenarios interleaved
-            for i in range(nscenes * len(progs)):  # no program left: nothing to do
-                p = progs[i % len(progs)]
+        rng = base.Capped(SeededRNG(seed), 100000)  # a scene consuming more random numbers than that is a livelock, not judged
+        with patched_random(rng):  # (a) consecutive scenes, scenarios interleaved
+            for i in range(nscenes * len(progs)):
+                p, rng.n = progs[i % len(progs)], 0
                 try:
                     scene, _ = p["scenario"].generate(maxIterations=60, verbosity=0)
                 except RejectionException:
                     stats["lazy:scene-rejected"] = stats.get("lazy:scene-rejected", 0) + 1
                     continue
+                except base.Livelock:
+                    stats["unjudged:draw-exceeded-rng-call-cap"] = 1
+                    log.append((i, p["src"], "livelock"))
+                    break
                 par = {v.name: float(scene.params[v.name]) for v in p["vars"]}
                 pos = np.array([base.xyz(scene.params["pos"])])
                 log.append((i, sorted(par.items()), np.round(pos, 9).tolist()))
                 steps += 1
                 info = {"program": p["src"], "scene_index": i, "scenes_before_from_same_scenario": i // len(progs), "parameters_of_this_scene": par, "seed": seed}
                 if not violations:
-                    violations += base.member_violations(p["build"](par), pos, "membership", info)
+                    ref = p["build"](par)
+                    violations += base.member_violations(ref, pos, "membership", info)
+                    if violations and p["op"] == "intersect" and ref.A.dim == ref.B.dim == 2 and len(ref.points(20000)) < 5:
+                        # two polygons at height z touching in a point / along an edge: the library's result is at z = 0
+                        model = rr.Comp("intersect", base.relevel(ref.A, 0.0), base.relevel(ref.B, 0.0))
+                        if not base.member_violations(model, pos, "membership", info):
+                            violations[0]["detail"]["finding"] = "degenerate-polygonal-intersection-ignores-z"
         stats["lazy:scenes"] = steps
         for p in progs:  # (b) exact law per parameter value, over the whole RNG tree of generate()
             if p["discrete"] and not violations:
